@@ -82,21 +82,59 @@ fn opts_matrix() -> Vec<ParseOptions> {
     v
 }
 
-/// Parse one string with every option combination and the auxiliary entry points.
-fn exercise(s: &str, perm: u8) -> u64 {
+/// Parse one string with every option combination and the auxiliary entry points. Returns the
+/// number of calls and, if a rule-type option let a rule of the other kind through, a description.
+fn exercise(s: &str, perm: u8) -> (u64, Option<String>) {
     let mut n = 0;
+    let mut leak: Option<String> = None;
+    let empty = Engine::from_filter_set(FilterSet::new(false), false).serialize_raw().ok();
     for mut o in opts_matrix() {
         o.permissions = PermissionMask::from_bits(perm);
-        let _ = parse_filter(s, true, o);
+        let a = parse_filter(s, true, o);
         let _ = parse_filter(s, false, o);
         n += 2;
+        let kind = match &a {
+            Ok(ParsedFilter::Network(_)) => Some("network"),
+            Ok(ParsedFilter::Cosmetic(_)) => Some("cosmetic"),
+            Err(_) => None,
+        };
+        let forbidden = match o.rule_types {
+            RuleTypes::NetworkOnly => Some("cosmetic"),
+            RuleTypes::CosmeticOnly => Some("network"),
+            RuleTypes::All => None,
+        };
+        if kind.is_some() && kind == forbidden {
+            leak = Some(format!("parse_filter with format {:?} and rule types {:?} returned a {} rule", o.format, o.rule_types, kind.unwrap()));
+        }
+        // the same through FilterSet::add_filter / add_filters: nothing of the other kind may be loaded
+        if forbidden.is_some() {
+            let mut fs = FilterSet::new(false);
+            let _ = fs.add_filter(s, o);
+            let mut fs2 = FilterSet::new(false);
+            fs2.add_filters([s], o);
+            n += 2;
+            // a set restricted to one kind, fed a single line: if the line is of the other kind the
+            // engine must be empty
+            let other_kind = match parse_filter(s, false, ParseOptions { rule_types: RuleTypes::All, ..o }) {
+                Ok(ParsedFilter::Network(_)) => Some("network"),
+                Ok(ParsedFilter::Cosmetic(_)) => Some("cosmetic"),
+                Err(_) => None,
+            };
+            if other_kind.is_some() && other_kind == forbidden {
+                for (name, set) in [("add_filter", fs), ("add_filters", fs2)] {
+                    if Engine::from_filter_set(set, false).serialize_raw().ok() != empty {
+                        leak = Some(format!("FilterSet::{} with format {:?} and rule types {:?} loaded a {} rule", name, o.format, o.rule_types, forbidden.unwrap()));
+                    }
+                }
+            }
+        }
     }
     let _ = NetworkFilter::parse_hosts_style(s, true);
     let _ = read_list_metadata(s);
     let mut fs = FilterSet::new(true);
     let _ = fs.add_filter_list(s, ParseOptions::default());
     let _ = fs.add_filter(s, ParseOptions::default());
-    n + 4
+    (n + 4, leak)
 }
 
 fn mutants_of(line: &str, r: &mut Rng, every_offset: bool) -> Vec<String> {
@@ -167,8 +205,11 @@ fn totality(ctx: &mut Ctx) {
         let mut reached = 0;
         for m in ms.iter().chain(std::iter::once(&line)) {
             match guarded(|| exercise(m, perm)) {
-                Ok(k) => {
+                Ok((k, leak)) => {
                     ctx.evals(k);
+                    if let Some(what) = leak {
+                        ctx.violation(sub, idx, "C11:rule-type-option-lets-other-kind-through", json!({"input": m, "what": what}));
+                    }
                     // non-trivial: the input reaches a specific parser (not a comment / empty line)
                     let t = m.trim();
                     if !t.is_empty() && !t.starts_with('!') && t.len() > 1 {
@@ -206,7 +247,12 @@ fn totality(ctx: &mut Ctx) {
             .collect();
         let s = String::from_utf8_lossy(&bytes).to_string();
         match guarded(|| exercise(&s, 0)) {
-            Ok(k) => ctx.evals(k),
+            Ok((k, leak)) => {
+                ctx.evals(k);
+                if let Some(what) = leak {
+                    ctx.violation("bytes", idx, "C11:rule-type-option-lets-other-kind-through", json!({"input": s, "what": what}));
+                }
+            }
             Err(sig) => ctx.violation("bytes", idx, &format!("C11:{}", sig), json!({"input": s})),
         }
     }
